@@ -154,3 +154,4 @@ Example C15_nonvacuous :
   /\ config_loop_gen ".json" (SNode [("l", SLeaf (TList TPath) None)]) (INode [("l", ILeaf (VList [VPath "a"]))])
      = Ok (INode [("l", ILeaf (VList [VStr "a"]))]).
 Proof. vm_compute. repeat split; reflexivity. Qed.
+Print Assumptions C15_nonvacuous.
